@@ -39,6 +39,62 @@ CLAIMED = {
             'theorems are _partial by exactly that attribute.',
             'Trusted: Lean kernel, standard axioms, translator g_children.py (sentinel instantiation of every class), harness. '
             'Generators are modelled as lists; Python recursion limit and shared nodes are outside the model.', 'DESIGN.md §6 C16'),
+    'C03': ('Lean 4 proof of LR soundness (stack invariant by induction over driver steps) from a kernel-decided validity check of '
+            'the regenerated LALR tables against a regenerated certificate; correspondence of the driver and semantic-action '
+            'models on recorded traces; exhaustive bounded differential against an independent ES5.1 reference parser written in Lean',
+            'tables_valid is decided in the kernel over every action/goto entry of the tables regenerated from /repo; lr_sound then '
+            'gives, for EVERY token source, fuel and input, that an accepted parse is a derivation tree of the regenerated grammar '
+            'whose yield is exactly the shifted tokens (the tree the derivation dictates). Language equality with ES5 is not provable '
+            'here: it is covered by the differential judge (all token strings up to length 2-3 over a 56-token alphabet, sampled '
+            'length 3-4, G1/G2/G4) against Spec.Es5Parse, with the recorded deviations excluded by narrow syntactic class predicates.',
+            'Trusted: Lean kernel, standard axioms, translators g_tables.py/g_actions.py, Spec.Es5Parse as a reading of ECMA-262 5.1; '
+            'ply LALR construction itself is not verified (the tables are the object of study); missing-goto freedom is tie-only.',
+            'DESIGN.md §6 C03'),
+    'C06': ('Lean 4 proof over the executable lexer model (ply lex loop + token matchers + calmjs Lexer state machine): termination, '
+            'partition of the input, ordering, maximal munch and keyword exactness decided over regenerated rule order; '
+            'token-stream correspondence incl. error messages; independent ES5 judge',
+            'Theorems for ALL texts about the model of the lexer whose rule order, ignore sets, keyword table and character classes '
+            'are regenerated from /repo (character classes by exhaustive enumeration of every code point against the compiled regexes); '
+            'tied to the implementation by comparing full token streams (type, value, offset, line, column) and exact error messages.',
+            'Trusted: Lean kernel, standard axioms, translators g_tables.py/g_lexdata.py, hand-transcribed regex matchers (tie S1), '
+            'CPython re engine; U+2028/2029 handling is known finding KF-06a.', 'DESIGN.md §6 C06'),
+    'C11': ('Lean 4 kernel decision over the semantic-action table obtained by action probing x the regenerated grammar '
+            '(anchor slot and token-map rules for every production and value shape); driver+actions correspondence on recorded '
+            'traces; independent judge of every node of real trees',
+            'actions_anchor_ok: for every production and probed value shape each node is anchored at its first token (or its operator '
+            'for the listed forms, for(;;) placeholders excepted) and each token-map entry records its text at its own position; the '
+            'table is tied to the real p_* functions by probing them and by S2b (identical trees with positions, token maps and comments '
+            'on recorded token traces). The composition to all inputs (induction over derivations with ply tracking) is argued in '
+            'DESIGN.md and not yet a single Lean theorem.',
+            'Trusted: Lean kernel, translator g_actions.py (mock-production probing), Model/Actions.lean interpreter (tie S2b), '
+            'token positions are C06.', 'DESIGN.md §6 C11'),
+    'C14': ('Lean 4 frame/refinement proof over an object-heap model whose per-call/persistent partition is regenerated from /repo '
+            'by identity observation and decided in the kernel; history correspondence incl. abandoned, interleaved and raising calls',
+            'per_call_objects_fresh and persistent_state_readonly are decided over the table observed on the running implementation '
+            '(which objects two calls share, which are mutated); print_history_independent holds for every engine, heap and history. '
+            'The strength rests on the checked partition plus the history tie (fresh-object reference for every observation).',
+            'Trusted: Lean kernel, translator g_api.py (gc/identity reflection), harness; the engine is a parameter (the unparser '
+            'model plugs in); generators and loggers are opaque to the deep hash.', 'DESIGN.md §6 C14'),
+    'C15': ('Lean 4 frame proof over the parse-call model with the freshness table regenerated from /repo; exhaustive short call '
+            'sequences and concurrent parses compared with fresh-process references',
+            'parser_state_fresh / module_state_readonly decided over the observed object table; parse_history_independent for every '
+            'parse machine and call sequence. Thread schedules cannot be exhibited by the model: that clause is correspondence only '
+            '(16 threads, switch intervals 1e-6..5e-3) and the evidence says so.',
+            'Trusted: Lean kernel, translator g_api.py, harness; CPython scheduling is sampled, not modelled.', 'DESIGN.md §6 C15'),
+    'C18': ('Lean 4 proof over a fault-injectable state-machine model of io.read/io.write/write_sourcemap (all arrangements, all '
+            'fragment lists, all fault plans); exhaustive fault-point enumeration against the real helpers',
+            'write_closes_exactly_once / read_closes_exactly_once / relabelling / sourcepath / written text theorems hold for every '
+            'oracle, plan, arrangement and fragment list; the model is tied by enumerating every fault point of every primitive for '
+            'all arrangements on the real helpers with instrumented streams; URL/base64/relpath claims are judged in Python.',
+            'Trusted: Lean kernel, standard axioms, harness; json/base64/os.path are uninterpreted; close() itself is assumed not '
+            'to fail (shown by example what happens otherwise). Relative stream names: known finding KF-18a.', 'DESIGN.md §6 C18'),
+    'C19': ('Lean 4 proof by structural induction over JSON syntax trees using the regenerated extractor definitions, with literal '
+            'semantics of Python vs JSON modelled exactly (strings as code points, numbers as exact rationals + kind)',
+            'extract_json_partial / number_value_agree / string_value_agree_partial hold for every JSON tree, binding form and fold '
+            'setting outside the two proved-false classes (\\/ escape, surrogate-pair escapes: known findings KF-19a/b, negations '
+            'proved on witnesses); tied to ast_to_dict on random JSON and judged against json.loads type-strictly.',
+            'Trusted: Lean kernel, standard axioms, translator g_extractor.py, pyLiteralEval as a transcription of CPython literal '
+            'semantics and correctly rounded toDouble (tie only).', 'DESIGN.md §6 C19'),
     'C17': ('Lean 4 kernel decision (decide +kernel) of equality of the three regenerated LALR table sets and lexer rule lists, '
             'lifted to all inputs by a generic theorem about the LR driver model; cross-configuration differential tie',
             'The tables of the three configurations (generated modules / in-memory unoptimised / regenerated by optimize.reoptimize) '
